@@ -153,10 +153,15 @@ fn hostile_piece(rng: &mut Rng) -> Vec<u8> {
         0 => random_bytes(rng, 40),
         1 | 2 => token_soup(rng, 14),
         3 => {
-            // unterminated sourceFile header followed by lines containing `"}`
+            // unterminated sourceFile header (ending in every character that could matter
+            // to a string scanner) followed by lines containing `"}`
             let mut v = b"# {\"id\":\"sourceFile\",\"fileName\":\"abc".to_vec();
-            if rng.chance(1, 2) {
-                v.extend_from_slice(b"\norig.A -> a:\n    void foo() -> x\n# \"}\n");
+            let tail: &[u8] = *rng.pick(&[b"".as_slice(), b"\\", b"\\\"", b"\"", b"\"}x", b"{", b"'", b"\\\\", b"\xc3", b" ", b"\t"]);
+            v.extend_from_slice(tail);
+            if rng.chance(2, 3) {
+                let nl: &[u8] = *rng.pick(&[b"\n".as_slice(), b"\r\n", b"\r"]);
+                v.extend_from_slice(nl);
+                v.extend_from_slice(*rng.pick(&[b"orig.A -> a:\n    void foo() -> x\n# \"}\n".as_slice(), b"\"}\n", b"x\"}", b"    void f() -> a\n\"}\nb.C -> c:\n"]));
             }
             v
         }
@@ -225,6 +230,8 @@ const PROBES: &[&str] = &[
     "#",
     "a -> b:x",
     "\"}",
+    "\"}\nq.R -> s:\n",
+    "x\"}\n",
 ];
 
 fn exhaustive(ctx: &Ctx, rep: &mut Reporter, max_len: u32) {
